@@ -190,6 +190,7 @@ def build_cases(spec, tier, uni, rnd):
             capped = True
         for t in qs:
             t["opts"] = opts
+            t["own"] = bool(own_cap)     # a profile with its own share is not sampled again below
         trees.extend(qs)
     seen = set()
     uniq = []
@@ -199,11 +200,14 @@ def build_cases(spec, tier, uni, rnd):
             seen.add(k)
             uniq.append(t)
     total = len(uniq)
-    cap = spec.cap[tier]
+    owned = [t for t in uniq if t.get("own")]
+    uniq = [t for t in uniq if not t.get("own")]
+    cap = max(1, spec.cap[tier] - len(owned))
     if os.environ.get("VERIF_CAP"):
         cap = int(os.environ["VERIF_CAP"])
     exhaustive = not capped
-    if total > cap and spec.stratify:
+    total_free = len(uniq)
+    if total_free > cap and spec.stratify:
         # equal share per stratum (e.g. per math function), smallest terms first inside each
         groups = {}
         for t in uniq:
@@ -217,12 +221,13 @@ def build_cases(spec, tier, uni, rnd):
             picked += head + (rnd.sample(rest, min(len(rest), per - len(head))) if rest else [])
         uniq = picked
         exhaustive = False
-    elif total > cap:
+    elif total_free > cap:
         # the smallest terms first (they are the cores every larger failure reduces to), the rest sampled
         uniq.sort(key=lambda t: len(render.compact(t["q"])))
         head = uniq[:cap // 2]
         uniq = head + rnd.sample(uniq[cap // 2:], cap - len(head))
         exhaustive = False
+    uniq = uniq + owned
     cases = []
     cid = 0
     for i, t in enumerate(uniq):
